@@ -619,39 +619,42 @@ def _has_return(node):
     return any(isinstance(x, ast.Return) for x in ast.walk(node) if not isinstance(x, SCOPES) or x is node)
 
 
-def _single_exit(stmts, retvar):
-    """statement list with `return`s -> equivalent list without: code after an `if` whose branch returns moves into the other
-    branch; `return v` becomes `retvar = v`.  Returns (stmts, always_returns).  Returns inside loops/try/with: _GiveUp."""
-    out = []
-    for i, st in enumerate(stmts):
+def _always_returns(stmts):
+    for st in stmts:
+        if isinstance(st, ast.Return):
+            return True
+        if isinstance(st, ast.If) and _always_returns(st.body) and _always_returns(st.orelse):
+            return True
+    return False
+
+
+def _single_exit(stmts, retvar, cont=None):
+    """statement list with `return`s -> equivalent list without: "execute stmts; if no return was executed, execute cont".  `return v`
+    becomes `retvar = v` and ends the path; the code that follows an `if` containing a return (at any nesting depth) is moved into the
+    paths of that `if` that do not return (copied into both branches when both can fall through).  Returns inside loops/try/with:
+    _GiveUp.  Returns (stmts, always_returns)."""
+    cont = list(cont or [])
+
+    def se(ss, k):
+        if not ss:
+            return [copy.deepcopy(x) for x in k]
+        st, rest = ss[0], ss[1:]
         if isinstance(st, ast.Return):
             if retvar is not None:
                 val = st.value if st.value is not None else ast.Constant(value=None)
-                out.append(ast.copy_location(ast.Assign(targets=[ast.Name(id=retvar, ctx=ast.Store())], value=val), st))
-            elif st.value is not None and not isinstance(st.value, (ast.Constant, ast.Name)):
-                out.append(ast.copy_location(ast.Expr(value=st.value), st))
-            return out, True
-        if isinstance(st, ast.If):
-            b, br = _single_exit(st.body, retvar)
-            o, orr = _single_exit(st.orelse, retvar)
-            if br or orr:
-                rest, rr = _single_exit(stmts[i + 1:], retvar)
-                if br and orr:
-                    new = ast.If(test=st.test, body=b or [ast.Pass()], orelse=o)
-                    out.append(ast.copy_location(new, st))
-                    return out, True
-                if br:
-                    new = ast.If(test=st.test, body=b or [ast.Pass()], orelse=o + rest)
-                else:
-                    new = ast.If(test=st.test, body=(b + rest) or [ast.Pass()], orelse=o)
-                out.append(ast.copy_location(new, st))
-                return out, rr
-            out.append(ast.copy_location(ast.If(test=st.test, body=b or [ast.Pass()], orelse=o), st))
-            continue
+                return [ast.copy_location(ast.Assign(targets=[ast.Name(id=retvar, ctx=ast.Store())], value=val), st)]
+            if st.value is not None and not isinstance(st.value, (ast.Constant, ast.Name)):
+                return [ast.copy_location(ast.Expr(value=st.value), st)]
+            return [ast.copy_location(ast.Pass(), st)]
+        if isinstance(st, ast.If) and _has_return(st):
+            after = se(rest, k)
+            body = se(st.body, after) or [ast.copy_location(ast.Pass(), st)]
+            orelse = se(st.orelse, after)
+            return [ast.copy_location(ast.If(test=st.test, body=body, orelse=orelse), st)]
         if not isinstance(st, SCOPES) and _has_return(st):
             raise _GiveUp()
-        out.append(st)
-    return out, False
+        return [st] + se(rest, k)
+    return se(list(stmts), cont), _always_returns(stmts)
 
 
 _inl_counter = [0]
@@ -746,12 +749,24 @@ def _fuse_return(st, pre, val):
     """`__ret = e; T = __ret` -> `T = e`; and when e is (a tuple of) helper locals and T (a tuple of) names that the inlined body does
     not mention, the helper locals take the target names and the copy disappears: `Vb, Vn = self._bases(m)` un-extracts to the
     statements that computed Vb and Vn.  Returns (pre, val, drop_statement)."""
+    def rename_into_target():
+        # the return value is assigned on several paths: `T = helper()` -> the helper's paths assign T directly
+        if isinstance(val, ast.Name) and isinstance(st, ast.Assign) and len(st.targets) == 1 and isinstance(st.targets[0], ast.Name):
+            tname = st.targets[0].id
+            mentioned = {y.id for x in pre for y in ast.walk(x) if isinstance(y, ast.Name)}
+            if tname not in mentioned and val.id in mentioned:
+                for x in pre:
+                    for y in ast.walk(x):
+                        if isinstance(y, ast.Name) and y.id == val.id:
+                            y.id = tname
+                return pre, val, True
+        return pre, val, False
     if not (isinstance(val, ast.Name) and pre and isinstance(pre[-1], ast.Assign) and len(pre[-1].targets) == 1
             and isinstance(pre[-1].targets[0], ast.Name) and pre[-1].targets[0].id == val.id):
-        return pre, val, False
+        return rename_into_target()
     nstores = sum(1 for x in pre for y in ast.walk(x) if isinstance(y, ast.Name) and y.id == val.id)
     if nstores != 1:
-        return pre, val, False
+        return rename_into_target()
     expr, pre = pre[-1].value, pre[:-1]
     if not (isinstance(st, ast.Assign) and len(st.targets) == 1):
         return pre, expr, False
